@@ -131,3 +131,84 @@ reg(Prop("C18", ["Properties_C18"], [
     Stream("rdonly", "rdonly", treegen.ser_cases, flavours=("rel", "O0"), nontrivial=lambda c, l: "(tag" in c or "(arr" in c or "(map" in c,
            rule="every tree of the ser space built inside an arena that is then mprotect(PROT_READ)-ed; cbor_serialized_size, cbor_serialize and every predicate / getter that hands out no reference run under the protection at -O2 and -O0; a store faults deterministically and is reported with the node path; byte image compared before/after; non-trivial = tree with at least one container or tag"),
 ], level_note="Theorem about model H's access log (every store to an existing block is logged); the model is tied to the real code by the write-protected arena runs and by the hist stream"))
+
+HIST_RULE = ("random rule-following API histories (a shadow of the client's own references keeps them legal: new/build of every type, "
+             "push/get/set/replace, map add, add chunk, tag set/get/build, copy, load, serialize, incref, decref; shared sub-items; "
+             "acyclic), lengths 3..150; compared per step: return value, refcount of every handle the client holds, container "
+             "size/capacity, and at the end the live-block count and the complete allocator event trace (sizes, block identities); "
+             "non-trivial = history with at least one container insertion")
+hist_nt = lambda c, l: ("push" in c or "madd" in c or "chunk" in c or "tset" in c or "bt " in c)
+
+def hist_stream(name="hist", flavours=("rel", "dbg"), env=None, gen=histgen.hist_cases):
+    return Stream(name, "hist", gen, args=(LDEF, CAP, "none", 0), flavours=flavours, nontrivial=hist_nt, rule=HIST_RULE, env=env, timeout=600)
+
+def pairs_xy(ctx):
+    """(x, y) pairs: x from the enumerated well-formed space, y in {empty, every single byte (sampled), other items, garbage}; sequences of <= 6 items"""
+    rng = ctx.rng
+    enum = cborgen.enumerated(1)
+    xs = enum[:: (6 if ctx.tier == "quick" else 1)]
+    out = []
+    ys = [[b] for b in (range(0, 256, 5) if ctx.tier == "quick" else range(256))] + [[0xFF, 0xFF], [0x1C], [0x82, 0x01], [0x5F, 0xFF], [0xEE] * 9]
+    for i, x in enumerate(xs):
+        out.append(x.bs)
+        for y in (ys if i % 5 == 0 else rng.sample(ys, 6)):
+            out.append(x.bs + list(y))
+        out.append(x.bs + rng.choice(enum).bs)
+    for _ in range(200 if ctx.tier == "quick" else 5000):
+        s = []
+        for _ in range(rng.randrange(2, 7)):
+            s += rng.choice(enum).bs
+        out.append(s)
+    return [cborgen.hx(b) for b in out]
+
+def seq_cases(ctx):
+    return pairs_xy(ctx)
+
+reg(Prop("C14", ["Properties_C14"], [
+    Stream("pairs", "seq", pairs_xy, args=(LDEF, CAP), flavours=("rel", "dbg"), nontrivial=lambda c, l: l.count("ok") >= 1,
+           rule="(x, y) pairs with x from the enumerated well-formed space and y the empty string, single bytes, other items or garbage, plus concatenations of 2..6 enumerated items; the harness decodes repeatedly at the offset advanced by bytes-read, each item presented with the exact remainder of the buffer; non-trivial = at least one item decoded"),
+], level_note="Theorems C14_suffix (frame lemma on the parser spec + head prefix-independence) and C14_sequence (from the C03 round trip); tied by the seq stream"))
+
+DEPTH_LS_QUICK = (1, 2, 3)
+DEPTH_LS_THOROUGH = (1, 2, 3, 8, 64, 2048)
+def depth_streams():
+    out = []
+    for L in DEPTH_LS_THOROUGH:
+        g = cborgen.depth_cases_for(L)
+        def gen(ctx, L=L, g=g):
+            if ctx.tier == "quick" and L not in DEPTH_LS_QUICK:
+                return []
+            return g(ctx)
+        out.append(Stream("depth-L%d" % L, "depth", gen, args=(L, CAP), flavours=("rel",), L=L, timeout=1200,
+                          nontrivial=lambda c, l: True,
+                          rule="library rebuilt through cmake with -DCBOR_MAX_STACK_SIZE=%d; nesting built from every container kind (tags, definite / indefinite arrays and maps in key and value position, chunked strings innermost) at depths L-1, L, L+1, L+2, 4L, mixed chains, truncated deep inputs; decode + describe + size + serialize + copy + release on a thread whose stack is 128 KiB + 768 B x L" % L))
+    return out
+reg(Prop("C19", ["Properties_C19"], depth_streams(),
+         level_note="Theorems for every L about the model (L is a parameter): depth <= L, exactness, MEMERROR beyond; native stack bytes per frame are not modelled: the small-stack thread of the depth stream observes them"))
+
+reg(Prop("C01", ["Properties_C01"], [
+    Stream("loadpost", "loadpost", cborgen.load_cases, args=(LDEF, CAP), flavours=("dbg", "rel"), nontrivial=not_trivial_load, rule=LOAD_RULE + "; after a successful decode: describe, size, serialize, copy, release; ASan+UBSan build with CBOR_ASSERT live, each input in an exactly-sized heap block", timeout=900),
+    Stream("dec1", "dec1", streamgen.dec1_cases, flavours=("dbg",), nontrivial=lambda c, l: c != "-",
+           rule="streaming decoder on every initial byte x every truncation, exactly-sized blocks, ASan+UBSan"),
+], level_note="partial: the theorems cover the streaming decoder, the tree decoder (model P: no out-of-bounds read, no third outcome, termination), total serialization, read-only traversal and safe release; heap-level safety of the builder and of cbor_copy under the C04 invariant is tied by the hist/loadpost streams but not yet a theorem; C undefined behaviour outside bounds/assert logic (alignment, printf formats in cbor_describe, libc) is seen only by the sanitizer runs"))
+
+reg(Prop("C04", ["Properties_C04"], [hist_stream()],
+         level_note="partial: the invariant (count = client's + containers' + pending references; single ownership of data blocks) is proved preserved by the release machine, incref and the leaf constructors, with exactly-once release, no touch after release and no leak; preservation by every other API call is tied by the hist stream (per-step refcounts and the full allocator trace) but not yet a theorem"))
+
+reg(Prop("C13", ["Properties_C13"], [
+    hist_stream("hist-tag", flavours=("rel",), env={"HX_ALLOC": "tag"}),
+    hist_stream("hist-arena", flavours=("rel",), env={"HX_ALLOC": "arena"}),
+    Stream("dec1-noalloc", "dec1", lambda ctx: streamgen.dec1_cases(ctx)[::7], flavours=("rel",), nontrivial=lambda c, l: c != "-",
+           rule="request counter of the streaming decoder (any request appends ALLOCS=n to the line)"),
+    Stream("enc-noalloc", "enc", lambda ctx: streamgen.enc_cases(ctx)[::7], flavours=("rel",), nontrivial=lambda c, l: True,
+           rule="request counter of the low-level encoders"),
+    Stream("ser-noalloc", "ser", treegen.ser_cases, flavours=("rel",), nontrivial=lambda c, l: True,
+           rule="request counter of cbor_serialized_size / cbor_serialize (SIZEALLOCS / ALLOCS markers)"),
+], level_note="partial: 'never handed to the C library directly' is a fact about the sources and the binary: it rests on the AST inventory (bridge lemma) and on the exact equality of the predicted allocator trace under a tagging allocator (hidden header + magic: a stray libc free/realloc aborts) and an arena with no libc backing"))
+
+reg(Prop("C17", ["Properties_C17"], [
+    Stream("thr", "thr", histgen.thr_cases, args=(LDEF, CAP), flavours=("tsan", "rel"), nontrivial=lambda c, l: True, timeout=900,
+           rule="2..16 threads, each running an independent random API history on thread-private data, released together by a barrier; ThreadSanitizer build (any report fails the run); every thread's per-step observations and allocator trace must equal the single-threaded model's"),
+    Stream("shared", "shared", histgen.shared_cases, flavours=("tsan",), nontrivial=lambda c, l: True, timeout=900,
+           rule="2..16 concurrent readers (size, serialize, every getter) of one shared fully built tree under ThreadSanitizer"),
+], level_note="partial: no executable Gallina model exhibits hardware interleavings or the allocator's own thread-safety (assumed); proved: no hidden mutable global state (AST inventory) and the frame property of read-only traversals; schedules are explored by TSan runs"))
